@@ -39,6 +39,11 @@ def base_ns(draw=None, probes=0, hooks=False):
     ns = dict(
         va='⟦A⟧', vb='⟦B⟧', vn=7, vz='', vnone=None,
         ct=1, cf=0,
+        # hyphenated names that end like the variables dtml-in defines
+        **{'content-length': '⟦CL⟧', 'page-number': '⟦PN⟧',
+           'my-item': '⟦MI⟧', 'doc-key': '⟦DK⟧', 'row-index': '⟦RI⟧',
+           'x-even': '⟦XE⟧', 'q-roman': '⟦QR⟧', 'tab-start': '⟦TS⟧',
+           'sequence-foo': '⟦SF⟧', 'a-size': '⟦AS⟧', 'b-batches': '⟦BB⟧'},
         # names spelled like tag and continuation words
         **{'else': '⟦ELSE⟧', 'elif': '⟦ELIF⟧', 'except': '⟦EXCEPT⟧',
            'finally': '⟦FINALLY⟧', 'in': '⟦IN⟧', 'if': '⟦IF⟧',
